@@ -98,6 +98,14 @@ func runCheck(repo, verifDir, prop, tier, evidence string, timeout int, verbose 
 			run.results = append(run.results, p.VerifyLemma(l))
 		}
 	}
+	if prop == "C18" {
+		// the released v0.0.17 codec functions against the SAME contract text as the working tree's
+		olds, fault := verifyOldCodec(repo, verifDir)
+		if fault != "" {
+			run.faults = append(run.faults, fault)
+		}
+		run.results = append(run.results, olds...)
+	}
 	if len(run.results) == 0 {
 		fmt.Printf("TOOL-FAULT: no contract carries property %s\n", prop)
 		return 2
@@ -381,4 +389,67 @@ func buildReplay(p *Program, repo, verifDir, prop string, o *Obligation) *Replay
 	}
 	tryReplay(p, repo, verifDir, o, r)
 	return r
+}
+
+// verifyOldCodec loads storj.io/drpc v0.0.17 (from the module cache, through the backcompat module
+// of the repository) and checks its varint/frame codec against the codec section of the working
+// tree's contract file, extracted verbatim on every run.
+func verifyOldCodec(repo, verifDir string) ([]*FuncResult, string) {
+	src := filepath.Join(repo, "drpcwire", "zz_verif_contracts.go")
+	b, err := os.ReadFile(src)
+	if err != nil {
+		return nil, "C18: cannot read " + src
+	}
+	var sb strings.Builder
+	for _, l := range strings.Split(string(b), "\n") {
+		if strings.HasPrefix(l, "// ---- Reader") {
+			break
+		}
+		if strings.HasPrefix(strings.TrimSpace(l), "//@") {
+			sb.WriteString(l + "\n")
+		} else {
+			sb.WriteString("\n")
+		}
+	}
+	dir, err := os.MkdirTemp("", "govc-old")
+	if err != nil {
+		return nil, "C18: temp dir"
+	}
+	defer os.RemoveAll(dir)
+	os.WriteFile(filepath.Join(dir, "codec.contracts"), []byte(sb.String()), 0o644)
+	oldDir := filepath.Join(repo, "internal", "backcompat", "oldservice")
+	p, err := LoadProgram(oldDir, []string{"storj.io/drpc/drpcwire"}, map[string]string{
+		"storj.io/drpc/drpcwire": dir, "*": filepath.Join(verifDir, "contracts", "std")})
+	if err != nil {
+		return nil, "C18: cannot load v0.0.17 sources: " + err.Error()
+	}
+	pk := p.ByPath["storj.io/drpc/drpcwire"]
+	if pk == nil || pk.Module == nil || pk.Module.Version != "v0.0.17" {
+		v := "?"
+		if pk != nil && pk.Module != nil {
+			v = pk.Module.Version
+			if pk.Module.Replace != nil {
+				v = pk.Module.Replace.Version
+			}
+		}
+		if v != "v0.0.17" {
+			return nil, "C18: expected storj.io/drpc v0.0.17, loaded " + v
+		}
+	}
+	var out []*FuncResult
+	for _, name := range []string{"ReadVarint", "AppendVarint", "ParseFrame", "AppendFrame", "(ID).Less"} {
+		fc := p.CS.Funcs["storj.io/drpc/drpcwire."+name]
+		if fc == nil {
+			return nil, "C18: codec contract for " + name + " not found in the extracted text"
+		}
+		r := p.VerifyFunc(fc)
+		r.Name = "v0.0.17:" + r.Name
+		for _, o := range r.Obls {
+			o.Name = "v0.0.17/" + o.Name
+			o.Props = nil
+			o.Replay = nil
+		}
+		out = append(out, r)
+	}
+	return out, ""
 }
